@@ -618,6 +618,13 @@ func Judge(p *Pair, c *Case, sk *Skew) Verdict {
 		v.Msg = fmt.Sprintf("%v at %s", pv, where)
 		return v
 	}
+	if d := p.ShapeGoReused(c, v.RS, v.Go); d != "" {
+		v.Kind, v.NonTrivial, v.Differ = "violated", true, true
+		v.Key = "C05/reused-buffer/" + v.Cat + "/output depends on the feature lists the buffer served before"
+		v.Msg = fmt.Sprintf("a Buffer that served the same text under other feature lists (all global / half-open ranges / none) shapes it differently than a new Buffer: font=%s#%d text=%s item=%s %s (resolved dir=%d script=%s)\n  fresh: %s\n  %s",
+			c.Font, c.Index, U(c.Text), U(c.Item()), c.Settings(), v.RS.Dir, scriptString(v.RS.Script), Fmt(v.Go), d)
+		return v
+	}
 	var ok bool
 	v.C, ok = p.ShapeC(c, v.RS)
 	v.NonTrivial = !p.Trivial(c, v.RS, v.Go) || !p.Trivial(c, v.RS, v.C)
